@@ -42,7 +42,7 @@ Accept(r, ca, k) == LET h == Honest(r, ca) IN IF k < Len(h) THEN {h[k + 1]} ELSE
 VARIABLES role, ca, k, op, pc, input, pos, hist
 vars == <<role, ca, k, op, pc, input, pos, hist>>
 
-Benign(o) == o.op \in {"none", "refrag", "warnalert"} \/ (o.op = "script" /\ o.how = "none")
+Benign(o) == o.op \in {"none", "refrag", "warnalert"} \/ (o.op = "script" /\ o.how = "none") \/ (o.op = "srvscript" /\ o.how = "reneg_honest")
 
 \* the input stream the peer produces: honest flight with the op applied at message index k (1-based)
 Apply(h, kk, o) ==
@@ -66,7 +66,10 @@ Apply(h, kk, o) ==
     [] o.op = "script" -> IF o.how = "none" THEN h ELSE <<"BAD">>
     \* a scripted server that holds the genuine keys: selects an ECDHE-SM2 suite and names another curve; or runs the
     \* honest ECC flight and then sends its (correct) Finished in the clear without ChangeCipherSpec
-    [] o.op = "srvscript" -> <<"SH", "CERT", "BAD">>
+    \* "reneg_*": after an honest first handshake the scripted TLS server asks for a second one (HelloRequest) and runs it
+    \* correctly ("reneg_honest": it completes and application data follows) or without its ChangeCipherSpec
+    \* ("reneg_noccs": Finished and data still under the first handshake's keys - the client must not accept them)
+    [] o.op = "srvscript" -> IF o.how = "reneg_honest" THEN h ELSE <<"SH", "CERT", "BAD">>
     [] o.op = "close"  -> SubSeq(h, 1, kk - 1) \o <<"EOF">>
     [] o.op = "ccs"    -> SubSeq(h, 1, kk - 1) \o <<"X:CCS">> \o SubSeq(h, kk, Len(h))
     [] o.op \in {"appdata", "appdata_empty"} -> SubSeq(h, 1, kk - 1) \o <<"X:APP">> \o SubSeq(h, kk, Len(h))
@@ -83,7 +86,7 @@ Ops(h) == {[op |-> "none"], [op |-> "refrag"]} \cup
           \* every cut position of the short structured messages (hello, key exchange, certificate request / verify)
           {[op |-> "trunc", k |-> i, how |-> "cut" \o ToString(n)] : i \in {j \in 1..Len(h) : h[j] \in {"CH", "SH", "SKE", "CREQ", "CKE", "CV"}}, n \in 0..CutMax} \cup
           {[op |-> "selfmal", k |-> i, how |-> w] : i \in {j \in 1..Len(h) : h[j] \in {"CKE", "SKE"}}, w \in SelfMals} \cup
-          (IF h[1] = "SH" THEN {[op |-> "srvscript", k |-> 3, how |-> w] : w \in {"ecdhe_curve99", "ecdhe_curve23", "ecdhe_curve24", "noccs_plainfin"}} ELSE {}) \cup
+          (IF h[1] = "SH" THEN {[op |-> "srvscript", k |-> 3, how |-> w] : w \in {"ecdhe_curve99", "ecdhe_curve23", "ecdhe_curve24", "noccs_plainfin", "reneg_honest", "reneg_noccs"}} ELSE {}) \cup
           (IF h[1] = "CH" THEN UNION {{[op |-> "script", k |-> 1, how |-> w, policy |-> p] : p \in {q \in Policies : w \in {"omit_cv", "dup_cv"} => q # "none"}} : w \in Scripts} \cup
                                {[op |-> "chvers", k |-> 1, v |-> v] : v \in Versions} \cup
                                {[op |-> "selfvers", k |-> 1, v |-> v] : v \in Versions \cup {258, 511, 767}} \cup
